@@ -320,3 +320,102 @@ Example ex_embed_value :
   circ_op Ziops 4 (map (relabel_gate (fun j => nth j [3; 1] 0)) xSub) = embed Ziops 4 [3; 1] (circ_op Ziops 2 xSub)
   /\ circ_op Ziops 2 xSub <> midentity Ziops 2.
 Proof. split; [vm_compute; reflexivity|vm_compute; discriminate]. Qed.
+
+(* ================================================================ Gate.controlled_by on the dense operators *)
+(* Base/SemCtrl.v: cembed n cs ts M = embed n (cs ++ ts) (ctrl_mat |cs| M), ctrl_mat k M = diag(1, ..., 1, M).
+   Gate.controlled_by (gates/abstract.py): `if qubits: self.is_controlled_by = True; self.control_qubits = qubits`
+   on a gate without controls (the class-changing overrides X -> CNOT/TOFFOLI, RZ -> CRZ, ... are the generated
+   dispatch obligations of harness/c05.py; a gate that already has controls is rejected by the decorator). *)
+From QV Require Import Base.SemCtrl C01.ProofsGram.
+
+Section ControlledBy.
+  Context {T : Type} (K : ops T) (cj : T -> T).
+  Hypothesis HK : semiring K.
+  Hypothesis HC : conj_ok K cj.
+  Notation G := (gate (T:=T)).
+
+  Definition controlled_by (qs : list nat) (g : G) : G :=
+    let '(ctrl, cs, ts, M) := g in match qs with [] => g | _ => (true, qs, ts, M) end.
+  (* not in controlled_by form and no built-in controls: the gates controlled_by accepts *)
+  Definition uncontrolled (g : G) : Prop := let '(ctrl, cs, _, _) := g in ctrl = false /\ cs = [].
+
+  Lemma ctrl_mat_0 (M : mat T) : ctrl_mat K 0 M = M.
+  Proof. unfold ctrl_mat. simpl. apply block_diag_eye0. Qed.
+
+  (* the operator of g.controlled_by(qs) is the block-control diag(1, ..., 1, M) of g's matrix, as a full
+     matrix on qs ++ targets (also for qs = []) *)
+  Lemma controlled_by_op_eq n qs ts (M : mat T) :
+    NoDup qs -> (forall q, In q (qs ++ ts) -> q < n) -> (forall q, In q qs -> ~ In q ts) ->
+    wf_mat (length ts) M ->
+    gate_op K n (controlled_by qs (false, [], ts, M)) = embed K n (qs ++ ts) (ctrl_mat K (length qs) M).
+  Proof.
+    intros Hn Hq Hd HM. destruct qs as [|q0 qs'].
+    - simpl. now rewrite ctrl_mat_0.
+    - unfold controlled_by. cbn [gate_op]. now apply cembed_embed_ctrl.
+  Qed.
+
+  (* textbook semantics on computational basis states *)
+  Lemma controlled_by_on_basis_eq n qs ts (M : mat T) c : length c = n ->
+    (forall q, In q qs -> q < n) -> (forall q, In q qs -> ~ In q ts) ->
+    mvmul K (gate_op K n (controlled_by qs (false, [], ts, M))) (basis K n c)
+    = if all1 (sel qs c) then mvmul K (gate_op K n (false, [], ts, M)) (basis K n c) else basis K n c.
+  Proof.
+    intros Hc Hq Hd. destruct qs as [|q0 qs'].
+    - reflexivity.
+    - unfold controlled_by. cbn [gate_op isort fold_right app]. now apply (cembed_on_basis K HK).
+  Qed.
+
+  (* dagger commutes with control: as gate objects ... *)
+  Lemma dag_controlled_by_eq qs (g : G) : uncontrolled g ->
+    dag K cj (controlled_by qs g) = controlled_by qs (dag K cj g).
+  Proof.
+    destruct g as [[[ctrl cs] ts] M]. intros [-> ->]. destruct qs; reflexivity.
+  Qed.
+
+  (* ... and as operators: (g.dagger()).controlled_by(qs) has the adjoint operator of g.controlled_by(qs) *)
+  Lemma controlled_by_dagger_op_eq n qs (g : G) : uncontrolled g -> gate_wf n (controlled_by qs g) ->
+    gate_op K n (controlled_by qs (dag K cj g)) = madj K cj n (gate_op K n (controlled_by qs g)).
+  Proof.
+    intros Hu Hw. rewrite <- dag_controlled_by_eq by assumption. now apply (dag_op K cj HC).
+  Qed.
+
+  (* a controlled unitary is unitary: as a gate (same matrix) and as the full block matrix *)
+  Lemma controlled_by_unitary_eq qs (g : G) : uncontrolled g -> gate_unitary K cj g ->
+    gate_unitary K cj (controlled_by qs g)
+    /\ (let '(_, _, ts, M) := g in
+        let U := ctrl_mat K (length qs) M in
+        wf_mat (length qs + length ts) U
+        /\ mmul K (madj K cj (length qs + length ts) U) U = eye K (2 ^ (length qs + length ts))).
+  Proof.
+    destruct g as [[[ctrl cs] ts] M]. intros [-> ->] Hu. split.
+    - destruct qs; exact Hu.
+    - destruct Hu as [HM HU]. simpl in HM, HU. split.
+      + now apply ctrl_mat_wf.
+      + now apply (ctrl_mat_isometry K HK cj (cj_zero K cj HC) (cj_one K cj HC)).
+  Qed.
+End ControlledBy.
+
+(* controlled-(iX) on target 1 with controls (2, 0) of 3 qubits *)
+Example ex_controlled_by_hyps :
+  NoDup [2; 0] /\ (forall q, In q ([2; 0] ++ [1]) -> q < 3) /\ (forall q, In q [2; 0] -> ~ In q [1])
+  /\ wf_mat (length [1]) xU1 /\ uncontrolled (false, [], [1], xU1)
+  /\ gate_wf 3 (controlled_by [2; 0] (false, [], [1], xU1))
+  /\ gate_unitary Ziops zi_conj (false, [], [1], xU1).
+Proof.
+  unfold wf_mat, gate_wf, uncontrolled, gate_unitary. repeat split; try (vm_compute; reflexivity); xfin.
+Qed.
+Example ex_controlled_by_value :
+  controlled_by [2; 0] (false, [], [1], xU1) = (true, [2; 0], [1], xU1)
+  /\ gate_op Ziops 3 (controlled_by [2; 0] (false, [], [1], xU1))
+     = embed Ziops 3 ([2; 0] ++ [1]) (ctrl_mat Ziops 2 xU1)
+  /\ mvmul Ziops (gate_op Ziops 3 (controlled_by [2; 0] (false, [], [1], xU1))) (basis Ziops 3 [true; false; true])
+     = mvmul Ziops (gate_op Ziops 3 (false, [], [1], xU1)) (basis Ziops 3 [true; false; true])
+  /\ mvmul Ziops (gate_op Ziops 3 (controlled_by [2; 0] (false, [], [1], xU1))) (basis Ziops 3 [true; false; true])
+     <> basis Ziops 3 [true; false; true]
+  /\ mvmul Ziops (gate_op Ziops 3 (controlled_by [2; 0] (false, [], [1], xU1))) (basis Ziops 3 [false; true; true])
+     = basis Ziops 3 [false; true; true]
+  /\ gate_op Ziops 3 (controlled_by [2; 0] (dag Ziops zi_conj (false, [], [1], xU1)))
+     = madj Ziops zi_conj 3 (gate_op Ziops 3 (controlled_by [2; 0] (false, [], [1], xU1)))
+  /\ dag Ziops zi_conj (false, [], [1], xU1) <> (false, [], [1], xU1)
+  /\ mmul Ziops (madj Ziops zi_conj 3 (ctrl_mat Ziops 2 xU1)) (ctrl_mat Ziops 2 xU1) = eye Ziops 8.
+Proof. repeat split; try (vm_compute; reflexivity); vm_compute; discriminate. Qed.
